@@ -28,7 +28,17 @@ from checks import udbl
 
 LEVEL = "proof"
 
-MUTATION_DRILLS = []
+MUTATION_DRILLS = [
+    {"mutation": "UserDictionary::UpdateEntry: the revive of a negative count (`if (v.commits < 0) v.commits = -v.commits;`) removed",
+     "ran": "scratch worktree of /repo + copy of /verif: VERIF_REPO=/var/tmp/wt-c11 VERIF_CACHE=/var/tmp/rime-verif-c11 bin/check C10 quick",
+     "test_suite_with_mutation": "passes (ctest, guard off)",
+     "fired": "VIOLATION property=C10 with a concrete failing history (found_failing_input=true): stored:vscript, stored:luna_pinyin - a counted update "
+              "of a deleted record stores c+1 instead of |c|+1 in the real call log (property oracle on the log); raw dumps differ from the model - exit 1"},
+    {"mutation": "UserDictionary::UpdateEntry: `v.commits += commits + 1` (a commit counts 2)",
+     "ran": "same", "test_suite_with_mutation": "passes (ctest, guard off)",
+     "fired": "VIOLATION property=C10 with a concrete failing history (found_failing_input=true): stored:vscript / stored:vtable - the real call log "
+              "stores |c|+2 for a counted update (property oracle on the log), raw dumps differ from the model - exit 1"},
+]
 
 MAIN_DB = {"vscript": "vscript", "vtable": "vtable", "luna_pinyin": "luna_pinyin"}
 
@@ -402,14 +412,16 @@ def _replay(h, kind, x, a, b, text, before, after):
 
 
 def _count_oracle_fails(d):
-    """property oracle on the real call log alone: inside one transaction, the count a
-    counted update stores must be |count found in the store at Begin| + 1 and the tick
-    must grow by one per counted update.  True = a concrete failing history was found."""
+    """property oracle on the real call log alone (no model): an entry update that
+    directly follows a "/tick" update is a counted one and must store |count held by
+    the store when the transaction began| + 1; any other entry update must leave the
+    count alone or mark it deleted; the tick must grow by one per counted update.
+    True = the log of this history is a concrete failing input."""
     store, batch, intxn = {}, [], False
-    last_tick = None
+    counted_next, txn_tick = False, None
     for op in d.ops:
         if op == "begin":
-            batch, intxn = [], True
+            batch, intxn, txn_tick = [], True, None
         elif op == "abort":
             batch, intxn = [], False
         elif op == "commit":
@@ -419,13 +431,22 @@ def _count_oracle_fails(d):
         elif op.startswith("U:"):
             _, kk, v = op.split(":", 2)
             if kk == udbl.TICK_KEY:
-                last_tick = v
+                n = int(v[1:]) if v.startswith("n") else None
+                if intxn and txn_tick is not None and n != txn_tick + 1:
+                    return True
+                counted_next = intxn or n != 0
+                if intxn:
+                    txn_tick = n
             elif not kk.startswith("01") and "," in v:
-                c, t = v.split(",")
+                c = int(v.split(",")[0])
                 old = store.get(kk, "0,0")
                 oc = int(old.split(",")[0]) if "," in old else 0
-                if int(c) > 0 and int(c) not in (abs(oc) + 1, oc):
+                if counted_next:
+                    if c != abs(oc) + 1:
+                        return True
+                elif c not in (oc, min(-1, -oc)):
                     return True
+                counted_next = False
             (batch.append((kk, v)) if intxn else store.__setitem__(kk, v))
     return False
 
